@@ -101,13 +101,17 @@ func (p payload) wire() string {
 		return "AAAAA"
 	case "badp": // padding in the middle
 		return "AA=A"
+	case "bv": // a decodable prefix (the base64 of b) followed by a quantum of garbage
+		return base64.StdEncoding.EncodeToString(p.b) + "!!!!"
+	case "bd": // a decodable prefix followed by one dangling character
+		return base64.StdEncoding.EncodeToString(p.b) + "A"
 	}
 	return ""
 }
 
 func (p payload) field() string {
-	if p.kind == "v" {
-		return "v" + hex.EncodeToString(p.b)
+	if p.kind == "v" || p.kind == "bv" || p.kind == "bd" {
+		return p.kind + hex.EncodeToString(p.b)
 	}
 	return p.kind
 }
@@ -123,6 +127,13 @@ func parsePayload(s string) (payload, error) {
 			return payload{}, fmt.Errorf("bad payload %q", s)
 		}
 		return payload{kind: "v", b: b}, nil
+	}
+	if strings.HasPrefix(s, "bv") || strings.HasPrefix(s, "bd") {
+		b, err := hex.DecodeString(s[2:])
+		if err != nil || len(b) == 0 {
+			return payload{}, fmt.Errorf("bad payload %q", s)
+		}
+		return payload{kind: s[:2], b: b}, nil
 	}
 	return payload{}, fmt.Errorf("bad payload %q", s)
 }
@@ -1300,6 +1311,16 @@ func runServer(r *common.Run, c srvCase, class string) error {
 			if !ok || name != t.used && !multiAuth(c.peer[:consumed]) {
 				r.Fail("server-mechanism-offered", "auth-unconfigured", lines, "authenticated with mechanism "+name+" (stepped: "+t.used+")")
 			}
+			for i := la; i < consumed; i++ {
+				pl := c.peer[i][1:]
+				if c.peer[i][0] == 'A' {
+					pl = c.peer[i][strings.Index(c.peer[i], "/")+1:]
+				}
+				if strings.HasPrefix(pl, "b") {
+					r.Fail("server-authn-undecodable-payload", "payload="+pl[:2], lines, "authenticated although a payload of the exchange was not valid base64")
+					break
+				}
+			}
 			for i := la + 1; i < consumed; i++ {
 				if c.peer[i][0] != 'R' {
 					r.Fail("server-authn-after-bad-element", "elem="+c.peer[i][:1], lines, "authenticated although an element other than <response/> followed <auth/>")
@@ -1499,6 +1520,8 @@ func plainPayloads() []string {
 	return []string{
 		mk("", "user", "secret"), mk("", "user", "wrong"), mk("admin", "user", "secret"), mk("", "other", "secret"),
 		mk("user", "secret"), mk("", "user", "secret", "x"), mk("", "", ""), "-", "eq", "sh", "bad",
+		// undecodable, but the decodable prefix is the accepted credentials
+		"b" + mk("", "user", "secret"), "bd" + mk("", "user", "secret")[1:], "b" + mk("", "user", "secretX"), "bd" + mk("", "user", "secretXY")[1:],
 	}
 }
 
@@ -2096,7 +2119,7 @@ func genRoundC(r *common.Run, rnd *common.Rand, pol policies) {
 	}
 	// ---- payloads at the boundaries of the two base64 decoders, both roles ----
 	sscripts := srvStepScripts()
-	for _, pl := range []string{"eq", "sh1", "sh", "sh3", "bad", "bad5", "badp"} {
+	for _, pl := range []string{"eq", "sh1", "sh", "sh3", "bad", "bad5", "badp", "bv01", "bd0102", "bv" + hex.EncodeToString([]byte("\x00user\x00secret"))} {
 		for si, sc := range cliStepScripts() {
 			for _, peer := range [][]string{{"c" + pl}, {"c" + pl, "s-"}, {"cv01", "c" + pl}, {"cv01", "c" + pl, "s-"}, {"s" + pl}, {"cv01", "s" + pl}, {"cv01", "cv02", "s" + pl}} {
 				_ = runClient(r, cliCase{mechs: []string{"M1"}, adv: []string{"M1"}, steps: sc, peer: peer}, fmt.Sprintf("cli-b64-%d", si))
